@@ -168,6 +168,26 @@ def run_shard(shard):
                 res.violate(violation('generic:trap', f'{name} keys {keys}: {e}', case, 'value independent control flow', str(e), repro))
             except Exception as e:
                 res.violate(violation('generic:error', f'{name} keys {keys}: {type(e).__name__}: {e}', case, '', repr(e), repro))
+        # ---- (i') kingdon's own exact rational-function type as coefficients: inverse of the inverse, x * inv(x) = 1
+        if shard.get('generic') and 0 < len(keys) <= 2 and alg.d <= 2:
+            from kingdon.polynomial import RationalPolynomial
+            from .C17 import form as _form, den as _den
+            res.evals += 1
+            try:
+                xs = alg.multivector(name='x', keys=tuple(keys), symbolcls=RationalPolynomial.fromname)
+                xi = xs.inv()
+                one, _ = mvdict(xs * xi)
+                back, _ = mvdict(xi.inv())
+                D = lambda v: _den(_form(v)) if isinstance(v, RationalPolynomial) else R.lift(v)
+                ok1 = all((D(v).isone() if k == 0 else D(v).iszero()) for k, v in one.items()) and 0 in one
+                orig = dict(zip(xs.keys(), xs.values()))
+                ok2 = all(D(back.get(k, 0)).same(D(orig.get(k, 0))) for k in set(back) | set(orig))
+                if not ok1 or not ok2:
+                    res.violate(violation('ratpoly:inverse', f'{name} keys {keys} with RationalPolynomial coefficients: ' + ('x*inv(x) != 1' if not ok1 else 'inv(inv(x)) != x'), case, '1 / x', show(one) + ' / ' + show(back)))
+            except ZeroDivisionError:
+                res.skipped += 1
+            except Exception as e:
+                res.violate(violation('ratpoly:error', f'{name} keys {keys} with RationalPolynomial coefficients: {type(e).__name__}: {e}', case, '', repr(e)))
         # ---- (ii) value grid
         pts = []
         k = len(keys)
